@@ -158,3 +158,59 @@ func (r *Rng) Next() uint64 {
 	return z ^ (z >> 31)
 }
 func (r *Rng) Intn(n int) int { return int(r.Next() % uint64(n)) }
+
+// HugeTokens concretises the symbolic event-header numbers of spec/Grammar.tla (token class Huge) for one token
+// string. "H32m" is aimed at the uint32 boundary of titleLen+1+textLen: given the other declared length n (when it is
+// written with plain digits) it becomes 2^32-1-n+k for a small k in 0..n, so that the sum reaches or crosses 2^32.
+func HugeTokens(toks []string, rng *Rng) map[string]string {
+	const maxU32 = uint64(1<<32 - 1)
+	other := uint64(0)
+	// declared lengths written with digits
+	num := func(from, to int) (uint64, bool) {
+		var v uint64
+		if from >= to {
+			return 0, false
+		}
+		for _, t := range toks[from:to] {
+			if len(t) != 1 || t[0] < '0' || t[0] > '9' {
+				return 0, false
+			}
+			v = v*10 + uint64(t[0]-'0')
+		}
+		return v, true
+	}
+	open, comma, cl := -1, -1, -1
+	for i, t := range toks {
+		switch {
+		case t == "{" && open < 0:
+			open = i
+		case t == "," && open >= 0 && comma < 0:
+			comma = i
+		case t == "}" && comma >= 0 && cl < 0:
+			cl = i
+		}
+	}
+	if open >= 0 && comma >= 0 {
+		if v, ok := num(open+1, comma); ok {
+			other = v
+		} else if cl >= 0 {
+			if v, ok := num(comma+1, cl); ok {
+				other = v
+			}
+		}
+	}
+	k := uint64(0)
+	if other > 0 {
+		k = uint64(rng.Intn(int(other) + 1))
+	}
+	if rng.Intn(4) == 0 { // sometimes just below the boundary
+		k = 0
+		other += uint64(1 + rng.Intn(3))
+	}
+	return map[string]string{
+		"H32m": strconv.FormatUint(maxU32-other+k, 10),
+		"H32":  []string{"4294967295", "4294967296", "4294967297"}[rng.Intn(3)],
+		"H63":  []string{"9223372036854775807", "9223372036854775808"}[rng.Intn(2)],
+		"H64":  []string{"18446744073709551615", "18446744073709551616", "99999999999999999999999"}[rng.Intn(3)],
+	}
+}
